@@ -300,6 +300,20 @@ theorem c19_completion_observer_is_transparent_or_raises (cfg : Cfg) (obs : Opti
     · simp [resultC, finishC, hres]
     · simp [resultC, finishC, hres, hf]
 
+/-- **Where the observer is notified.**  `notes` is the complete sequence of calls into user code during a run — the stages'
+    callbacks and the notifications of `on_stage_complete`, in call order.  Leaving the notifications out gives exactly the
+    callback log of the result, leaving the callbacks out gives exactly the list of stages shown; and every notification for
+    stage `j` comes DIRECTLY after the processor call of stage `j` (no gate, processor or handler of any stage runs in
+    between, none is notified before its processor ran, a blocked / failed / skipped / handler-recovered stage is never
+    announced), for every observer, configuration and stage list. -/
+theorem c19_observer_is_notified_right_after_the_processor (cfg : Cfg) (obs : Option StageObs) (stages : List (Stage σ)) (x : σ) :
+    (notes cfg obs stages x).filterMap Note.cb? = (resultO cfg obs stages x).1.log ∧
+    (notes cfg obs stages x).filterMap Note.shown? = (resultO cfg obs stages x).2 ∧
+    ∀ j, Note.shown j ∈ notes cfg obs stages x →
+      ∃ pre post sig, notes cfg obs stages x = pre ++ Note.cb (.proc j sig) :: Note.shown j :: post := by
+  have h := notesFrom_project cfg obs stages 0 ⟨x, clamp cfg 1, none⟩
+  exact ⟨h.1, h.2, notesFrom_shown cfg obs stages 0 ⟨x, clamp cfg 1, none⟩⟩
+
 /-! ### The history (`get_history`) and `AgentCascade`
 
 Every clause above holds for every configuration, stage list and input; the theorems below say that the two remaining ways in
@@ -445,5 +459,12 @@ example : (getHistory (histAfter [Call.run ⟨true, 100⟩ [sPass] 5, .prun [sPa
 example : (result ⟨false, 100⟩ [agentStage (some fun _ => .ok false) (fun x => .ok (x + 1)) 2,
                                agentStage (some fun _ => .ok true) (fun x => .ok (x + 1)) 2] 5).log =
     [.cp 0 5 (.ok false), .cp 1 5 (.ok true), .proc 1 5] := by decide
+
+/-- an observer that raises on every notification, a stage recovered by its handler in the middle: the recovered stage is not
+    announced, the two others are, each right after its processor -/
+example : notes ⟨false, 100⟩ (some fun _ => .raise)
+    [sPass, ⟨none, fun _ => .raise, some fun _ => .ok 9, true, 4⟩, sPass] 5 =
+    [.cb (.cp 0 5 (.ok true)), .cb (.proc 0 5), .shown 0, .cb (.proc 1 6), .cb (.eh 1),
+     .cb (.cp 2 9 (.ok true)), .cb (.proc 2 9), .shown 2] := by decide
 
 end Operon.Cascade
